@@ -93,6 +93,9 @@ def gen_cases(sh):
     elif src == 'c07':
         sp_ = c07.space(tier, seed)
         for q, hdr, join in sp_['cases'][lo:hi]:
+            if q.get('wide'):
+                yield q, [['v%d' % i for i in range(1, 13)]], None, ['w%d' % i for i in range(1, 13)], None
+                continue
             if q['kind'] == 'select' and any(refql.strip_alias(it)[0] in ('call', 'tuple') or (it[0] == 'list' and q.get('distinct')) for it in q.get('items', [])):
                 continue
             for A in sp_['tables'][:2]:
